@@ -324,4 +324,24 @@ theorem trailersGuard_agrees (c : Nat) (hc : Gen.ReqArms.trailersGuard = some c)
   · intro hd; simp [pollRecvTrailersG, hd]
   · intro hd; simp [pollRecvTrailersG, hd]
 
+/-- the function the scenario machine calls (`pollRecvTrailersT`, driven by the generated table) is the
+    repaired function when the source has the guard, and the unguarded one when it has not -/
+theorem pollRecvTrailersT_eq (S : Src σ) (H : Hdr) (st : St σ) :
+    (∀ c, Gen.ReqArms.trailersGuard = some c → pollRecvTrailersT S H st = pollRecvTrailersG S H st) ∧
+    (Gen.ReqArms.trailersGuard = none → pollRecvTrailersT S H st = pollRecvTrailers S H st) := by
+  constructor
+  · intro c hc
+    have hcode : c = CODE_H3_FRAME_UNEXPECTED := by
+      have hc' := hc
+      unfold Gen.ReqArms.trailersGuard at hc'
+      first
+        | (cases hc'; rfl)
+        | cases hc'
+    subst hcode
+    unfold pollRecvTrailersT pollRecvTrailersG
+    rw [hc]
+  · intro hn
+    unfold pollRecvTrailersT
+    rw [hn]
+
 end H3.GenAgree.Req
